@@ -536,7 +536,10 @@ fn is_changed_after_unmarking_chemistry(mathml: Element) -> bool {
             // debug!("After merge_element: -- parent{}", mml_to_string(&parent));
 
         } else if let Some(changed_value) = mathml.attribute_value(CHANGED_ATTR) {
-            if changed_value == ADDED_ATTR_VALUE {
+            // only an inserted invisible operator is removed (the re-parse adds it again); a real token can carry the mark too
+            //   (it is inherited when the single child of an added mrow is lifted) and must stay
+            if changed_value == ADDED_ATTR_VALUE && name(&mathml) == "mo" &&
+               matches!(as_text(mathml), "\u{2061}" | "\u{2062}" | "\u{2063}" | "\u{2064}") {
                 mathml.remove_from_parent();
                 return true;
             }
